@@ -92,6 +92,25 @@ def cmd? (kind : String) (args : List B) : Option Cmd :=
   | k, as =>
     if k.startsWith "search-" then (crit? (k.drop 7).toString as).map (Cmd.search false) else none
 
+/-- one event of a session prefix, as the harness names it → the client-side steps (in the order
+    the Go code performs them) and what the server said (in the order it said it) -/
+def event? (tok : String) : Option (List SessStep × List ClientSyntaxSpec.SrvEv) :=
+  match splitOnChar tok ':' with
+  | ["e"] => some ([.enabled [.utf8Accept]], [.enabledResp [.utf8Accept]])
+  | [k, l] =>
+    let cl := caps? l
+    if k = "g" || k = "c" || k = "l" || k = "L" || k = "h" then some ([.setCaps cl], [.advertised cl])
+    -- UNAUTHENTICATE answered `OK [CAPABILITY …]`: setCaps from the code, then completeCommand
+    else if k = "u" then some ([.setCaps cl, .unauthDone], [.advertised cl, .unauthenticated])
+    -- answered plain OK: completeCommand, then the client's own CAPABILITY command
+    else if k = "U" then some ([.unauthDone, .setCaps cl], [.unauthenticated, .advertised cl])
+    else none
+  | _ => none
+
+def events? (s : String) : Option (List SessStep × List ClientSyntaxSpec.SrvEv) :=
+  (splitOnChar s ';').foldlM (init := (([], []) : List SessStep × List ClientSyntaxSpec.SrvEv)) fun acc t =>
+    (event? t).map fun (a, b) => (acc.1 ++ a, acc.2 ++ b)
+
 def resultStr : Result → String
   | .ok => "ok" | .no => "no" | .bad => "bad" | .err => "err" | .hang => "err"
 
@@ -146,6 +165,24 @@ def handle (f : List String) : String :=
           let agree := o.wire == w && o.acts == ia && mstatus == status && resultStr o.result == result
           s!"{id}\t{boolStr agree}\t{orc}\t{showOutcome o.wire o.acts mstatus (resultStr o.result)}"
     | _, _, _, _ => s!"{id}\t0\tfail:bad-line\t-"
+  | [id, "sess", evs, tag, kind, args, script, wire, acts, status, result] =>
+    match events? evs, parseNat? tag, (splitOnChar args '|').mapM unrle?, script.toList.mapM act?, unrle? wire, acts? acts with
+    | some (steps, said), some tagNo, some as, some sc, some w, some ia =>
+      -- the oracle: the server's state per the RFCs when the command was written
+      let srv := ClientSyntaxSpec.Server.afterAll { adv := [], enabled := [] } said
+      let conts := (ia.filter fun x => x.2 = .cont).map (·.1)
+      let refusals := (ia.filter fun x => x.2 ≠ .cont).map (·.1)
+      let orc := verdictStr (ClientSyntaxSpec.check srv conts refusals (status == "eof") w)
+      match cmd? kind as with
+      | none => s!"{id}\t0\tfail:bad-line\t-"
+      | some c =>
+        match execIn (Sess.run {} steps) tagNo c sc with
+        | none => s!"{id}\t1\t{orc}\tunmodelled"
+        | some o =>
+          let mstatus := statusStr o.result
+          let agree := o.wire == w && o.acts == ia && mstatus == status && resultStr o.result == result
+          s!"{id}\t{boolStr agree}\t{orc}\t{showOutcome o.wire o.acts mstatus (resultStr o.result)}"
+    | _, _, _, _, _, _ => s!"{id}\t0\tfail:bad-line\t-"
   | [id, "seq", caps, en, kind0, args0, script0, kind, args, script, wire, acts, status, result] =>
     let adv := caps? caps
     let enabled : List Cap := if en == "1" then [.utf8Accept] else []
